@@ -107,6 +107,9 @@ func lcParseSpec(s string) lcSpec {
 	if strings.ContainsAny(sp.errtext, " \r\n\x00:") || sp.errtext == "" || len(sp.errtext) > 40 {
 		return lcSpec{}
 	}
+	if sp.place == "slow" && sp.k < 1 {
+		return lcSpec{} // the blocked handler is that of line k
+	}
 	if (sp.kind == "error" || sp.kind == "erroreof") && sp.place == "burst" && sp.n-sp.k > 20 {
 		return lcSpec{} // see lcGenSpec: the 30 s timer of Client.receive
 	}
@@ -616,9 +619,6 @@ func (cn *lcConn) run(cur *atomic.Value) lcConnResult {
 	case "slow":
 		if !cn.waitStep(cn.regDone) {
 			cn.problem("harness-timeout: registration incomplete")
-		}
-		if sp.k < 1 || sp.n < sp.k {
-			cn.problem("harness-timeout: bad slow spec")
 		}
 		cn.peerLines(burst(1, sp.n))
 		if !cn.waitStep(cn.inHandler) {
